@@ -2095,4 +2095,142 @@ theorem run_snoc_stop (c : Cfg) (ops : List Op) : ∀ (w : World), asserted c w 
       rw [hs] at hna
       cases out <;> first | (simp at hna; done) | exact ih w' hna
 
+/-! ### strong guarantee of the operations that build a temporary first -/
+
+theorem construct_log (w : World) (o : Org) (b : Option Nat) (n : Nat) : (w.construct o b n).1.log = w.log := by
+  unfold World.construct World.grow
+  cases b <;> simp <;> (repeat' split) <;> simp
+
+/-- a constructor that ends with bad_alloc has changed neither an image, nor the heap, nor the allocator log -/
+theorem pCtor_badAlloc (c : Cfg) (o : Org) (w : World) (s : Nat) (img0 : Img) (W H : Nat) (content : List Nat) (src : Option (Nat × Nat))
+    (hf : (pCtor c o w s img0 W H content src).2 = .badAlloc) :
+    (pCtor c o w s img0 W H content src).1.imgs = w.imgs ∧ (pCtor c o w s img0 W H content src).1.heap = w.heap
+      ∧ (pCtor c o w s img0 W H content src).1.log = w.log := by
+  refine ⟨pCtor_fail_imgs c o w s img0 W H content src (by rw [hf]; intro e; cases e), ?_⟩
+  unfold pCtor at hf ⊢
+  simp only [] at hf ⊢
+  split
+  · rename_i h1
+    simp only [h1, if_true] at hf
+    split
+    · rename_i hk
+      simp only [hk, if_true] at hf
+      cases hres : w.construct o none (W * H) with
+      | mk w2 okc => rw [hres] at hf; cases okc <;> simp at hf
+    · rename_i hk
+      have hkf : c.keepDims = false := by simpa using hk
+      simp only [hkf, Bool.false_eq_true, if_false] at hf
+      split
+      · rename_i h2; rw [if_pos h2] at hf; simp at hf
+      · rename_i h2; rw [if_neg h2] at hf; simp at hf
+  · rename_i hn0
+    simp only [hn0, if_false] at hf
+    rcases alloc_cases w img0.tag (o.needed img0.align W H) with e | ⟨fa, e⟩
+    · rw [e]; exact ⟨rfl, rfl⟩
+    · rw [e] at hf; simp only [] at hf
+      cases hres : World.construct _ o (some w.heap.length) (W * H) with
+      | mk w2 okc => rw [hres] at hf; cases okc <;> simp at hf
+
+/-- a constructor whose element construction throws has released the allocation it made, with the same size through the same allocator:
+    the printed log gains exactly `alloc b n t` then `dealloc b n t` (or nothing, when no byte was needed) -/
+theorem pCtor_ctorThrow_log (c : Cfg) (o : Org) (w : World) (s : Nat) (img0 : Img) (W H : Nat) (content : List Nat) (src : Option (Nat × Nat))
+    (hf : (pCtor c o w s img0 W H content src).2 = .ctorThrow) :
+    (pCtor c o w s img0 W H content src).1.log = w.log ∨
+    (pCtor c o w s img0 W H content src).1.log =
+      Event.dealloc w.heap.length (o.needed img0.align W H) img0.tag :: Event.alloc w.heap.length (o.needed img0.align W H) img0.tag :: w.log := by
+  unfold pCtor at hf ⊢
+  simp only [] at hf ⊢
+  split
+  · rename_i h1
+    simp only [h1, if_true] at hf
+    split
+    · rename_i hk
+      simp only [hk, if_true] at hf
+      have cl := construct_log w o none (W * H)
+      cases hres : w.construct o none (W * H) with
+      | mk w2 okc =>
+        rw [hres] at hf cl; simp only [] at cl
+        cases okc with
+        | true => simp at hf
+        | false => left; exact cl
+    · rename_i hk
+      have hkf : c.keepDims = false := by simpa using hk
+      simp only [hkf, Bool.false_eq_true, if_false] at hf
+      split
+      · rename_i h2; rw [if_pos h2] at hf; simp at hf
+      · rename_i h2; rw [if_neg h2] at hf; simp at hf
+  · rename_i hn0
+    simp only [hn0, if_false] at hf
+    rcases alloc_cases w img0.tag (o.needed img0.align W H) with e | ⟨fa, e⟩
+    · rw [e] at hf; simp at hf
+    · rw [e] at hf ⊢; simp only [] at hf ⊢
+      have cl := construct_log ({ w with heap := w.heap ++ [{ size := o.needed img0.align W H, tag := img0.tag }], log := Event.alloc w.heap.length (o.needed img0.align W H) img0.tag :: w.log, failA := fa } : World) o (some w.heap.length) (W * H)
+      cases hres : World.construct _ o (some w.heap.length) (W * H) with
+      | mk w2 okc =>
+        rw [hres] at hf cl; simp only [] at cl
+        cases okc with
+        | true => simp at hf
+        | false => right; simp [World.dealloc, cl]
+
+/-- `image tmp(...); swap(tmp);` ends with an exception only if the constructor of the temporary threw: then nothing else happened -/
+theorem swapWithTmp_throw (c : Cfg) (o : Org) (r : World × Outcome) (s : Nat)
+    (hf : (swapWithTmp c o r s).2 = .badAlloc ∨ (swapWithTmp c o r s).2 = .ctorThrow) : swapWithTmp c o r s = r := by
+  unfold swapWithTmp andThen at hf ⊢
+  split
+  · rename_i hok
+    simp only [hok] at hf
+    cases hp : pSwap c r.1 s tmpSlot with
+    | mk w' out => rw [hp] at hf; cases out <;> simp at hf
+  · rfl
+
+
+/-- `andThen r k` with a continuation that cannot throw ends with an exception only if `r` did: then the continuation never ran -/
+theorem andThen_throw (r : World × Outcome) (k : World → World × Outcome) (hk : ∀ w, (k w).2 = .ok)
+    (hf : (andThen r k).2 = .badAlloc ∨ (andThen r k).2 = .ctorThrow) : andThen r k = r := by
+  cases hr : r.2 <;> simp only [andThen, hr] at hf ⊢
+  rw [hk] at hf; simp at hf
+
+/-- a successful constructor that needs storage: the new image has the requested dimensions and content, the member initialisers' alignment and
+    allocator, and owns the block just allocated -/
+theorem pCtor_ok_img (c : Cfg) (o : Org) (w : World) (s : Nat) (img0 : Img) (W H : Nat) (content : List Nat) (src : Option (Nat × Nat))
+    (hnz : o.needed img0.align W H ≠ 0) (hok : (pCtor c o w s img0 W H content src).2 = .ok) :
+    ∃ j, (pCtor c o w s img0 W H content src).1.imgs s = some j ∧ j.w = W ∧ j.h = H ∧ j.pix = content ∧ j.mem = some w.heap.length
+      ∧ j.tag = img0.tag ∧ j.align = img0.align ∧ j.allocated = o.needed img0.align W H := by
+  unfold pCtor at hok ⊢
+  simp only [hnz, if_false] at hok ⊢
+  rcases alloc_cases w img0.tag (o.needed img0.align W H) with e | ⟨fa, e⟩
+  · rw [e] at hok; simp at hok
+  · rw [e] at hok ⊢; simp only [] at hok ⊢
+    cases hres : World.construct _ o (some w.heap.length) (W * H) with
+    | mk w2 okc =>
+      rw [hres] at hok
+      cases okc with
+      | false => simp at hok
+      | true =>
+        exact ⟨{ Img.withView o { img0 with allocated := o.needed img0.align W H, mem := some w.heap.length } W H with pix := content },
+          (by simp only [setImg_imgs, if_true]), rfl, rfl, rfl, rfl, rfl, rfl, rfl⟩
+
+
+theorem destruct_log (w : World) (o : Org) (b : Option Nat) (n : Nat) : (w.destruct o b n).log = w.log := by
+  unfold World.destruct; cases b <;> (split <;> simp) <;> (try split) <;> rfl
+
+/-- `destruct_pixels(_view); deallocate();` logs at most one event: the deallocate of the image's own block with its recorded size through its
+    own allocator -/
+theorem release_log (o : Org) (w : World) (i : Img) :
+    (release o w i).log = w.log ∨ ∃ bk, i.mem = some bk ∧ (release o w i).log = Event.dealloc bk i.allocated i.tag :: w.log := by
+  unfold release
+  cases hm : i.mem with
+  | none => left; simp only []; exact destruct_log _ _ _ _
+  | some bk =>
+    simp only []
+    split
+    · right; exact ⟨bk, rfl, by simp [World.dealloc, destruct_log]⟩
+    · left; exact destruct_log _ _ _ _
+
+
+theorem pAdopt_imgs (o : Org) (w : World) (s s2 : Nat) (t : Bool) (a b : Img) (hs : w.imgs s = some a) (hs2 : w.imgs s2 = some b) (x : Nat) :
+    (pAdopt o w s s2 t).imgs x = if x = s2 then some { b.cleared with align := 0 }
+                                 else if x = s then some { b with tag := if t then b.tag else a.tag } else w.imgs x := by
+  unfold pAdopt; simp only [hs, hs2, setImg_imgs, release_imgs]
+
 end GilVerif.Lemmas.C10
